@@ -804,12 +804,39 @@ class Person(object):
             and self.lineage_names == other.lineage_names
         )
 
+    def _keeps_empty_first_part(self):
+        """
+        Without first and middle names, "von Last" is read back in the
+        "First von Last" form and "von Last, Jr" as "von Last, First",
+        unless the empty First part is kept (a trailing comma).
+        A single token, or a name without a Jr part that starts with
+        a lower-case (von) token, is read back correctly as it is.
+
+        >>> print(Person('Dixit, Jr,'))
+        Dixit, Jr,
+        >>> Person(str(Person('Dixit, Jr,'))) == Person('Dixit, Jr,')
+        True
+        >>> print(Person('World Bank,'))
+        World Bank,
+        >>> print(Person('van Gogh'))
+        van Gogh
+        """
+        if self.first_names or self.middle_names:
+            return False
+        if self.lineage_names:
+            return True
+        von_last = self.prelast_names + self.last_names
+        return len(von_last) > 1 and not von_last[0][:1].islower()
+
     def __str__(self):
         # von Last, Jr, First
         von_last = ' '.join(self.prelast_names + self.last_names)
         jr = ' '.join(self.lineage_names)
         first = ' '.join(self.first_names + self.middle_names)
-        return ', '.join(part for part in (von_last, jr, first) if part)
+        text = ', '.join(part for part in (von_last, jr, first) if part)
+        if self._keeps_empty_first_part():
+            text += ','
+        return text
 
     def __repr__(self):
         return 'Person({0})'.format(repr(str(self)))
